@@ -15,7 +15,7 @@ class C10(F.PropCheck):
     IN = {'CFG': 0, 'CB': 1, 'TASK': 2, 'RELAY': 3, 'RECAL': 4}
     OUT = {0: 'ST', 1: 'REPORT', 2: 'GPIO'}
     quick_cases = 700; thorough_cases = 1000            # thorough: 1000 cases through the framework + batches (extra_quick)
-    thorough_batches = 30; batch_size = 500
+    thorough_batches = 22; batch_size = 500
     trusted_extra = ['C10 driver harness/drv/c10.c: real supla_esp_gpio_init, relay_hi, rs_set_relay + delayed-trigger os_timer (fired by the timer double), '
                      'add_task, rs_timer_cb (task processing, auto-calibration, 10-minute rule), supla_esp_calcfg_request; timer callback called directly '
                      'at scripted times, time burnt by os_delay_us inside an event is discarded at its end; motor sensor = harness board double',
